@@ -143,6 +143,9 @@ func (w *World) injectHostileSlash(l *Link) {
 		inf = stakingtypes.Infraction_INFRACTION_DOUBLE_SIGN
 	}
 	data := ccv.NewSlashPacketData(abci.Validator{Address: addr, Power: 1 + w.Rnd.Int63n(50)}, vsc, inf)
+	if l.C.Rec != nil {
+		l.C.Rec.Tainted = true
+	}
 	l.C.CApp.ConsumerKeeper.AppendPendingPacket(l.C.WriteCtx(), ccv.SlashPacket, &ccv.ConsumerPacketData_SlashPacketData{SlashPacketData: data})
 	if w.hostileQueued == nil {
 		w.hostileQueued = map[string]int{}
